@@ -1176,7 +1176,7 @@ def correspond(ctx):
             # histories); the history that tripped the budget is the replay (run it after the preceding ones of the batch)
             c.failures.append(Failure('correspondence', 'run stopped on budget at this history: %s; the model emits at most a few commands per op' % o['budget'],
                                       found_input=True, theorem='bind_is_one_bundle_in_issue_order',
-                                      replay={'history': h['ops'], 'mode': h.get('mode', 'nrt'), 'latency': h.get('latency'), 'budget': o['budget'],
+                                      replay={'history': h['ops'], 'mode': h.get('mode', 'nrt'), 'latency': h.get('latency'), 'config': h.get('config'), 'budget': o['budget'],
                                               'preceding_histories_in_batch': [x['ops'] for x in hs[max(0, i - 3):i]]}))
             continue
         if o.get('crash'):
@@ -1234,7 +1234,7 @@ def correspond(ctx):
                 'the implementation violates the property on this history (and differs from the repaired model): ' + '; '.join(t for _, t in texts[:3]),
                 signature=sig, found_input=True,
                 theorem='free_emits_each_owned_id_once_and_returns_it' if sig in (SIG_F14, SIG_F15) else 'emitted_conform',
-                replay={'history': h['ops'], 'mode': h.get('mode', 'nrt'), 'two_server_history': o.get('merged'), 'latency': h.get('latency'), 'observed': [[st['ev'], st['exc']] for st in o['steps']], 'violations': [t for _, t in texts],
+                replay={'history': h['ops'], 'mode': h.get('mode', 'nrt'), 'two_server_history': o.get('merged'), 'latency': h.get('latency'), 'config': h.get('config'), 'observed': [[st['ev'], st['exc']] for st in o['steps']], 'violations': [t for _, t in texts],
                         'how': 'SC3_MODE=nrt PYTHONPATH=/repo:/verif/harness /venv/bin/python harness/impl/c17_hist.py <in.json> <out.json> with {"histories": [history]}'}))
         elif h['cls'] == 'valid':
             # the repaired model is the verified reference (emitted_conform, ids_only_allocated, create / free / bind theorems):
@@ -1248,11 +1248,11 @@ def correspond(ctx):
             c.failures.append(Failure('correspondence',
                                       'the implementation departs from the verified reference model on a valid history: ' + where,
                                       found_input=True, theorem='emitted_conform / create_emits_own_id / free_emits_each_owned_id_once_and_returns_it',
-                                      replay={'history': h['ops'], 'mode': h.get('mode', 'nrt'), 'two_server_history': o.get('merged'), 'latency': h.get('latency'), 'first_difference_at_op': di,
+                                      replay={'history': h['ops'], 'mode': h.get('mode', 'nrt'), 'two_server_history': o.get('merged'), 'latency': h.get('latency'), 'config': h.get('config'), 'first_difference_at_op': di,
                                               'observed': [[st['ev'], st['exc']] for st in o['steps']], 'model_says': dtxt}))
         else:
             c.failures.append(Failure('correspondence', 'model (Proto.run repaired) and implementation disagree on a %s history' % h['cls'],
-                                      replay={'history': h['ops'], 'mode': h.get('mode', 'nrt'), 'two_server_history': o.get('merged'), 'latency': h.get('latency'), 'observed': [[st['ev'], st['exc']] for st in o['steps']]}))
+                                      replay={'history': h['ops'], 'mode': h.get('mode', 'nrt'), 'two_server_history': o.get('merged'), 'latency': h.get('latency'), 'config': h.get('config'), 'observed': [[st['ev'], st['exc']] for st in o['steps']]}))
     # independent monitors on every valid history, even when the model agrees
     for i, (h, o) in enumerate(zip(hs, outs)):
         if h['cls'] != 'valid' or not usable(o) or not usable(flat_of[i]) or i in [idx[b] for b in bad]:
